@@ -30,10 +30,10 @@ Proof.
   f_equal. apply mapM_ext_in. intros v _. apply H.
 Qed.
 
-Lemma evalc_ext2 (t1 t2:trig_t) (n1 n2:nested_t) g E s fvs ep c :
+Lemma evalc_ext2 (t1 t2:trig_t) W (n1 n2:nested_t) g E s fvs ep c :
   (forall k ns, in_triggers (t1 ep (sid s) k) ns = in_triggers (t2 ep (sid s) k) ns) ->
   (forall r s' v, In r (comp_shapes E s c) -> lookup E r = Some s' -> n1 s' v ep = n2 s' v ep) ->
-  evalc t1 n1 g E s fvs ep c = evalc t2 n2 g E s fvs ep c.
+  evalc t1 W n1 g E s fvs ep c = evalc t2 W n2 g E s fvs ep c.
 Proof.
   intros Ht Hn. destruct c; cbn [evalc comp_shapes] in *.
   - reflexivity.
@@ -83,6 +83,7 @@ Proof.
     destruct disjoint; [|injection Hsibs as <-; destruct Hsib].
     destruct (lookup_all_in _ _ _ Hsibs sib Hsib) as (r2 & Hr2 & El2).
     eapply Hn; eauto. apply in_app_iff. right. apply in_flat_map. exists r. auto.
+  - reflexivity.
 Qed.
 
 Lemma loop_ext_in o top s ev ev' :
@@ -108,10 +109,10 @@ Proof.
 Qed.
 
 (* ---------------- C19: the back-out heuristic is inert on non-recursive shapes graphs ---------------- *)
-Theorem vshape_no_backout o g E rank : ranked E rank ->
+Theorem vshape_no_backout W o g E rank : ranked E rank ->
   forall fuel top ep s foci, In s E ->
   (forall e, In e ep -> rank (sid s) < rank (fst e)) ->
-  vshape recursion_triggers fuel o g E top ep s foci = vshape no_triggers fuel o g E top ep s foci.
+  vshape recursion_triggers W fuel o g E top ep s foci = vshape no_triggers W fuel o g E top ep s foci.
 Proof.
   intros Hr. induction fuel as [|fuel IH]; intros top ep s foci Hs Hep; cbn [vshape]; [reflexivity|].
   destruct (deact s); [reflexivity|]. destruct (isnil foci); [reflexivity|].
@@ -132,6 +133,7 @@ Qed.
 (* ---------------- C11: waivers never change which results are reported ---------------- *)
 Section WithTrig.
 Variable trig : trig_t.
+Variable W : world.
 
 Definition res_snd (a:res cres) : res (list vresult) := match a with Ok cr => Ok (snd cr) | Err e => Err e end.
 
@@ -171,15 +173,15 @@ Qed.
 Theorem vshape_waiver_irrelevant o o' g E : e_abort o = false -> e_abort o' = false ->
   e_max_depth o = e_max_depth o' ->
   forall fuel ep s foci,
-  vshape trig fuel o g E false ep s foci = vshape trig fuel o' g E false ep s foci
-  /\ res_snd (vshape trig fuel o g E true ep s foci) = res_snd (vshape trig fuel o' g E true ep s foci).
+  vshape trig W fuel o g E false ep s foci = vshape trig W fuel o' g E false ep s foci
+  /\ res_snd (vshape trig W fuel o g E true ep s foci) = res_snd (vshape trig W fuel o' g E true ep s foci).
 Proof.
   intros Ha Ha' Hd. induction fuel as [|fuel IH]; intros ep s foci; cbn [vshape]; rewrite Hd;
     (destruct (deact s); [split; reflexivity|]); (destruct (isnil foci); [split; reflexivity|]);
     cbn [negb andb]; [split; reflexivity|].
   assert (Hev : forall fvs c,
-     evalc trig (fun s' v ep' => vshape trig fuel o g E false ep' s' [v]) g E s fvs (ep ++ [(sid s, comp_kind c)]) c
-     = evalc trig (fun s' v ep' => vshape trig fuel o' g E false ep' s' [v]) g E s fvs (ep ++ [(sid s, comp_kind c)]) c).
+     evalc trig W (fun s' v ep' => vshape trig W fuel o g E false ep' s' [v]) g E s fvs (ep ++ [(sid s, comp_kind c)]) c
+     = evalc trig W (fun s' v ep' => vshape trig W fuel o' g E false ep' s' [v]) g E s fvs (ep ++ [(sid s, comp_kind c)]) c).
   { intros fvs c. apply evalc_ext2; [reflexivity|]. intros r s' v _ _. apply IH. }
   split.
   - destruct (e_max_depth o' <=? length ep); [reflexivity|]. apply bind_ext. intros fvs.
@@ -194,12 +196,12 @@ Definition same_but_waivers (o o':opts) : Prop :=
   abort o = false /\ abort o' = false /\ max_depth o = max_depth o' /\ focus_filter o = focus_filter o'.
 
 Lemma validate_top_waiver o o' sg g E s explicit : same_but_waivers o o' ->
-  res_snd (validate_top trig o sg g E s explicit) = res_snd (validate_top trig o' sg g E s explicit).
+  res_snd (validate_top trig W o sg g E s explicit) = res_snd (validate_top trig W o' sg g E s explicit).
 Proof.
   intros (Ha & Ha' & Hd & Hf).
   assert (H : forall foci,
-     res_snd (vshape trig (fuel_of (eopts_of o)) (eopts_of o) g E true [] s foci)
-     = res_snd (vshape trig (fuel_of (eopts_of o')) (eopts_of o') g E true [] s foci)).
+     res_snd (vshape trig W (fuel_of (eopts_of o)) (eopts_of o) g E true [] s foci)
+     = res_snd (vshape trig W (fuel_of (eopts_of o')) (eopts_of o') g E true [] s foci)).
   { intros foci. unfold fuel_of. cbn [eopts_of e_max_depth]. rewrite <- Hd.
     apply vshape_waiver_irrelevant; simpl; auto. }
   unfold validate_top. destruct (deact s); [reflexivity|].
@@ -209,21 +211,21 @@ Qed.
 
 Lemma run_shapes_waiver o o' sg g E explicit : same_but_waivers o o' ->
   forall shapes nc nc' acc,
-  res_snd (run_shapes trig o sg g E shapes explicit nc acc)
-  = res_snd (run_shapes trig o' sg g E shapes explicit nc' acc).
+  res_snd (run_shapes trig W o sg g E shapes explicit nc acc)
+  = res_snd (run_shapes trig W o' sg g E shapes explicit nc' acc).
 Proof.
   intros Hs. pose proof Hs as (Ha & Ha' & _).
   induction shapes as [|s rest IH]; intros nc nc' acc; cbn [run_shapes]; [reflexivity|].
   pose proof (validate_top_waiver o o' sg g E s explicit Hs) as Ht.
-  destruct (validate_top trig o sg g E s explicit) as [cr|e];
-    destruct (validate_top trig o' sg g E s explicit) as [cr'|e']; simpl in Ht; try discriminate.
+  destruct (validate_top trig W o sg g E s explicit) as [cr|e];
+    destruct (validate_top trig W o' sg g E s explicit) as [cr'|e']; simpl in Ht; try discriminate.
   - injection Ht as Ht. cbn [bind]. cbv zeta. rewrite Ha, Ha', Ht. cbn [andb]. apply IH.
   - simpl. congruence.
 Qed.
 
 (* Turning allow_infos / allow_warnings on or off never changes which results are reported. *)
 Theorem validate_same_results o o' sg g E : same_but_waivers o o' ->
-  res_snd (validate trig o sg g E) = res_snd (validate trig o' sg g E).
+  res_snd (validate trig W o sg g E) = res_snd (validate trig W o' sg g E).
 Proof. intros Hs. unfold validate. apply run_shapes_waiver; auto. Qed.
 
 Lemma all_waived_incl (o o':eopts) rs : incl (e_allowed o) (e_allowed o') ->
@@ -236,7 +238,7 @@ Qed.
 (* conforms(o) implies conforms(o') whenever o' waives at least what o waives *)
 Theorem validate_monotone o o' sg g E c rs c' rs' : same_but_waivers o o' ->
   incl (allowed_severities o) (allowed_severities o') ->
-  validate trig o sg g E = Ok (c, rs) -> validate trig o' sg g E = Ok (c', rs') ->
+  validate trig W o sg g E = Ok (c, rs) -> validate trig W o' sg g E = Ok (c', rs') ->
   rs = rs' /\ (c = true -> c' = true).
 Proof.
   intros Hs Hi H H'. pose proof (validate_same_results o o' sg g E Hs) as Hr.
